@@ -4,5 +4,7 @@ CONSTANTS
   Fns = {"Println"}
   Shs = {"-", "fmt"}
   ScopeAware = TRUE
+  LambdaParamsScoped = FALSE
+  BareReturnLambda2 = FALSE
 INVARIANTS TypeOK Confluent ImportSound Export
 PROPERTIES Stable Terminates
